@@ -18,6 +18,11 @@ use starlark::values::tuple::UnpackTuple;
 
 use crate::canon;
 
+thread_local! {
+    static NESTED_GLOBALS: RefCell<Option<starlark::environment::Globals>> = const { RefCell::new(None) };
+}
+
+
 pub static GLOBAL_NAMES: std::sync::OnceLock<Vec<String>> = std::sync::OnceLock::new();
 
 thread_local! {
@@ -90,6 +95,27 @@ pub fn harness_natives(builder: &mut GlobalsBuilder) {
                 }
                 heap.alloc(("err", err_head(&e)))
             }
+        })
+    }
+
+    /// Evaluate module-level code on the evaluator this native was called with (an embedder re-entering
+    /// `eval_module` while Starlark frames are running): every top-level statement of `src` is a GC safepoint.
+    fn eval_here<'v>(
+        #[starlark(require = pos)] src: &str,
+        eval: &mut Evaluator<'v, '_, '_>,
+    ) -> anyhow::Result<Value<'v>> {
+        let ast = starlark::syntax::AstModule::parse("nested.star", src.to_owned(), &starlark::syntax::Dialect::AllOptionsInternal)
+            .map_err(|e| anyhow::anyhow!("{e:#}"))?;
+        let g = NESTED_GLOBALS.with(|c| c.borrow_mut().get_or_insert_with(crate::run::globals).clone());
+        let depth = eval.call_stack_count();
+        let r = eval.eval_module(ast, &g);
+        if eval.call_stack_count() != depth {
+            log(json!(["stackleak", depth, eval.call_stack_count()]));
+        }
+        let heap = eval.heap();
+        Ok(match r {
+            Ok(v) => heap.alloc(("ok", v)),
+            Err(e) => heap.alloc(("err", err_head(&e))),
         })
     }
 
